@@ -123,6 +123,10 @@ class P(Prop):
         (M, "TV.C09.positions_as_observations", "T9: the names x, y, z as observations read the coordinates of the object the position of that epoch is when the call is made (MarkovRegularization: obs=[x,y,z], mode 4)"),
         (M, "TV.C09.estimate_then_xyz", "T8+T9: after a decoding in mode 3,4,5, x / y / z of every epoch read the coordinates of the decoded state of that epoch"),
         (M, "TV.C09.any_sequence_of_candidates", "T10: S(track,k) is used through len() and [i] only: when every epoch's return value has a length (list, tuple, numpy array, range, deque, user sequence) the call is estimate on the items in index order - same flag, track, exception"),
+        (M, "TV.C09.negative_likelihood_raises", "T12: flag unset and some value returned by P / Q for a candidate (pair) is outside the domain of math.log once 1e-300 is added (a negative 'likelihood'): ValueError from the first column / forward pass, nothing of the track written"),
+        (M, "TV.C09.no_domain_error_of_log", "with the flag set (constructor, setLog or the argument of the call) nothing is converted: math.log is not called"),
+        (M, "TV.C09.paths_below_of_bounded", "the sentinel hypothesis made checkable: no table entry above B >= 0 and 2N*B below the sentinel imply PathsBelow"),
+        (M, "TV.C09.likelihood_form_nonneg", "T4': for non-negative likelihoods (zeros and values above 1 included), guard 0 < eps <= 1 and 2N*(-log eps) below the sentinel (code's constants: < 1e296 epochs) the decoded sequence has maximal guarded joint likelihood and the last recorded cost is -log of it - no hypothesis on running costs"),
         (M, "TV.C09.candidates_without_length", "T11: S returning at some epoch something without a length (generator, None, a bare state): TypeError, the flag or-ed into the object, nothing of the track written"),
         ("TracklibVerif.Lemmas.HmmPos", "TV.Hmm.writeBack_forward_pos", "the backward loop in modes 3,4,5: the position of every epoch j is rebound to STATES[j][back j], the object written to hmm_inference[j]"),
         ("TracklibVerif.Lemmas.HmmPos", "TV.Hmm.writeBack_xyz", "the backward loop, whatever the tables and wherever it stops: no coordinate of the track's own position objects is written"),
@@ -134,14 +138,14 @@ class P(Prop):
     partial = []
     open_statements = [
         "IEEE-754: monotonicity of float + on finite values and the rounding of math.log are not proved (theorems are over linear orders / ordered monoids / groups / reals); the float streams are covered by the correspondence and the sampled oracle only",
-        "numpy.argmin on NaN, infinite user-supplied logs and path costs >= 1e300 (sentinel reached) are outside the hypotheses",
-        "the user functions S, Q, P are parameters of the model (any functions of state, observation, epoch and track); exceptions raised by them, and math.log of a negative 'likelihood' (ValueError), are not modelled",
+        "numpy.argmin on NaN, infinite user-supplied logs and path costs >= 1e300 (sentinel reached) are outside the hypotheses (PathsBelow is discharged for bounded entries and for non-negative likelihoods: paths_below_of_bounded, likelihood_form_nonneg; user-supplied logarithms without a bound keep it as a hypothesis)",
+        "the user functions S, Q, P are parameters of the model (any functions of state, observation, epoch and track); exceptions raised by them are not modelled (math.log of a negative 'likelihood' is: T12)",
         "feature names t, timestamp as observations are outside the model (`unsupported`; x, y, z are modelled: T9); writing x, y, z through setObsAnalyticalFeature (an in-place write of the position object by the USER) is outside the model",
         "object identity: the model represents a state by its label and a position by a reference (own object / state object), with no writer of a coordinate, so 'estimate does not modify what S returned' is a property of the model by construction (T8: xyz unchanged, stXYZ a constant); that the IMPLEMENTATION modifies neither a state object nor a container is checked by the harness after every call (every candidate re-read by value, every container re-read by identity), not proved",
         "S returning a container whose len() / [i] have side effects or disagree (a dict, a one-shot view), or a bare state that itself has a length (a str, a tuple: its items become the candidates) are outside the model",
     ]
     modelled = ("tracklib/algo/dynamics.py: HMM.__init__ / setLog / setStates / setTransitionModel / setObservationModel (the object: S, Q, P, log), "
-                "HMM.Qlog / HMM.Plog (conversion -log(v + 1e-300) unless the flag is set), HMM.__getObs (feature values of the epoch, the first two / three "
+                "HMM.Qlog / HMM.Plog (conversion -log(v + 1e-300) unless the flag is set; ValueError of math.log when v + 1e-300 <= 0), HMM.__getObs (feature values of the epoch, the first two / three "
                 "fields merged into a Coords in modes 1,3 / 2,4, exit() when there are too few), HMM.estimate as a whole: self.log = self.log or log, "
                 "compilation of STATES (whatever S returns: used through len() and [i]; TypeError of len() on a generator / None / bare state before anything is written) "
                 "and OBS before any write, first column, forward recursion with the 1e300 sentinel and strict <, "
